@@ -104,7 +104,7 @@ func execC13(in []int64) []int64 {
 const c13ServeMagic = -7713
 
 func c13IsRange(fn int64) bool {
-	return fn == 29 || fn == 30 || fn == 34 || fn == 35 || (fn >= 42 && fn <= 45) || fn == 65 || fn == 66
+	return fn == 29 || fn == 30 || fn == 34 || fn == 35 || (fn >= 42 && fn <= 47) || fn == 65 || fn == 66
 }
 
 // c13Level: an int8 with a String method, as enum-like types have
@@ -433,6 +433,28 @@ func execC13Direct(in []int64) (out []int64) {
 				}
 				res = w.Out()
 			}
+		case 46, 47:
+			args := r.Ints()
+			a64 := make([]uint64, len(args))
+			for i, v := range args {
+				a64[i] = uint64(v)
+			}
+			var l []uint64
+			var err error
+			if fn == 46 {
+				l, err = gogu.Range(a64...)
+			} else {
+				l, err = gogu.RangeRight(a64...)
+			}
+			if err != nil {
+				res = resErr(1)
+			} else {
+				w := (&W{}).Int(0).Int(len(l))
+				for _, x := range l {
+					w.I64(int64(x))
+				}
+				res = w.Out()
+			}
 		case 36, 37, 38:
 			s := r.Ints()
 			fs := make([]float64, len(s))
@@ -560,7 +582,7 @@ var c13Names = map[int]string{1: "IndexOf", 2: "LastIndexOf", 3: "FindIndex", 4:
 	28: "Equal", 29: "Range", 30: "RangeRight", 31: "Mean[int8]", 32: "Clamp[int8]row", 33: "InRange[int8]row",
 	34: "Range[float64]/4", 35: "RangeRight[float64]/4", 36: "Sum[float64]/4", 37: "FindMin[float64]/4", 38: "FindMax[float64]/4",
 	39: "Min[string]", 40: "Max[string]", 41: "IndexOf[string]",
-	42: "Range[int8]", 43: "RangeRight[int8]", 44: "Range[uint8]", 45: "RangeRight[uint8]",
+	42: "Range[int8]", 43: "RangeRight[int8]", 44: "Range[uint8]", 45: "RangeRight[uint8]", 46: "Range[uint64]", 47: "RangeRight[uint64]",
 	50: "Sum[float64]", 51: "SumBy[float64]", 52: "Mean[float64]", 53: "Min[float64]", 54: "Max[float64]", 55: "FindMin[float64]",
 	56: "FindMax[float64]", 57: "FindMinBy[float64]", 58: "FindMaxBy[float64]", 59: "Abs[float64]", 60: "Clamp[float64]",
 	61: "InRange[float64]", 62: "Compare[float64]", 63: "Less[float64]", 64: "Equal[float64]", 65: "Range[float64]",
@@ -784,6 +806,35 @@ func genC13(g *Gen) {
 		}
 		emit("instances", len(s) > 1, w)
 	}
+	// Range / RangeRight[uint64] around 0, 2^63 and the top of the type (values above MaxInt64 go through
+	// FormatUint / ParseUint; the counter may pass MaxUint64: the loops stop there).  Only calls with few terms.
+	{
+		bases := []uint64{0, 1<<63 - 3, 1 << 63, math.MaxUint64 - 5}
+		steps := []uint64{1, 2, 3, 1 << 63, math.MaxUint64}
+		for _, b := range bases {
+			for a := uint64(0); a <= 5; a++ {
+				for e := uint64(0); e <= 5; e++ {
+					start, end := b+a, b+e
+					if end != 0 || start < 50 {
+						emit("instances", true, (&W{}).Int(46+g.Rng.Intn(2)).Ints([]int{int(start), int(end)}))
+					}
+					for _, st := range steps {
+						if end == 0 && start > 50 && st < 1<<32 {
+							continue
+						}
+						emit("instances", true, (&W{}).Int(46).Ints([]int{int(start), int(st), int(end)}))
+						if (a+e)%3 == 0 {
+							emit("instances", true, (&W{}).Int(47).Ints([]int{int(start), int(st), int(end)}))
+						}
+					}
+				}
+			}
+		}
+		for e := 0; e <= 6; e++ {
+			emit("instances", true, (&W{}).Int(46).Ints([]int{e}))
+			emit("instances", true, (&W{}).Int(47).Ints([]int{e}))
+		}
+	}
 	// --- extreme stream: arguments at and around the limits of int64 and of int32/uint32 ---
 	const maxI, minI = math.MaxInt64, math.MinInt64
 	ext := []int{maxI, maxI - 1, minI, minI + 1, 1 << 31, -(1 << 31), 1 << 32, -(1 << 32), 1 << 62, -(1 << 62), -1, 0, 1}
@@ -972,5 +1023,5 @@ func genC13(g *Gen) {
 
 func init() {
 	register(&Prop{ID: "C13", Exec: execC13, Gen: genC13, Describe: describeC13,
-		Rule: "exhaustive: every slice of length <= 5 (thorough 6) over {-1,0,1,2} x every probe in [-2,3] / predicate family / key family / index in [-len-2,len+2] (incl. Sum[int8], Mean[int8]); Clamp[int8] and InRange[int8] as whole rows: for int8 (lo,hi) - every third value quick, ALL pairs thorough - the results for every int8 n (thorough = every int8 triple), plus an int8 cube at stride 9/4 and every boundary probe n in {lo-1..lo+1,hi-1..hi+1} (stride 5 quick, all thorough) through the int instantiation, and all int8 for Abs / Abs[int8]; (start,step,end) in [-10,10]^3 (thorough [-14,14]^3) and every 1- and 2-argument call in that range, 0 and >3 arguments, for Range; lists of <= 3 (4) maps for ByKey. extreme: indices / probes / bounds / steps / elements in {MaxInt, MaxInt-1, MinInt, MinInt+1, +-2^31, +-2^32, +-2^62, -1, 0, 1} for Nth (and the valid window shifted by +-2^32 and to both ends of int64), Range/RangeRight (every single, pair and triple whose result has <= 5000 terms - the counter may pass the limits of int64: the repaired loops stop there - or that is rejected; progressions ending within 3 of MaxInt / MinInt), Clamp, InRange, Abs, Compare/Less/Equal, and slices of length <= 3 over {MaxInt, MinInt, +-2^62, +-1} for Sum/SumBy/Mean/Min/Max/FindMin/FindMax(+By) and (length <= 2) the searches with extreme probes. large: slices of 100..5000 elements for every slice function, Nth at both ends, ranges of 100..5000 terms (also ending at MaxInt / MinInt), ByKey over 100..500 maps, Sum/Mean[int8] at the lengths where int8(len) wraps. random: seeded slices up to length 24 over [-50,50]. instances: Range/RangeRight[float64] on every (start,step,end) in [-8,8]^3 quarters, Range/RangeRight[int8] and [uint8] on 19 / 14 start and end values at and around the limits of the type x 18 / 10 steps (incl. -128) and seeded random triples over the whole type, Sum/FindMin/FindMax[float64] on quarters and Min/Max/IndexOf[string] on numerals, seeded random slices up to length 12. float (c13_float.go; results compared bit for bit with the IEEE-754 model, NaN canonicalised): Sum/Mean/Min/Max/FindMin/FindMax[float64] on every slice of length <= 2 over 20 special values {-0, +0, +-1, 0.1, 0.2, 0.3, 0.5, 1.5, +-1e308, +-5e-324, MaxFloat64, 2^-1022, +-Inf, NaN, 2^53, 2^53+2} and of length 3 over the first 13 (thorough: all 20, and length 4 over the first 15), SumBy/FindMinBy/FindMaxBy x 4 key functions (x, -x, 0, |x|) on length <= 2 and length 3 over the first 7 (14), Abs on every value and its negation, Compare/Less/Equal on every pair, Clamp/InRange on every triple of the first 12 (20), ByKey[int,float64] on lists of <= 3 maps with NaN / -0 / +Inf values, Range/RangeRight[float64] on every single and pair over 24 values (incl. NaN, +-Inf, -0.001, 0.005, 2.675, 2^53, 2^53+2) and every triple over the first 14 (24) that is rejected or ends within 100 (3000) iterations, seeded random slices (raw bit patterns / ordinary decimals / mixed; length <= 12 and 100..500) for every function and seeded random decimal ranges. num / num-malformed (c13_num.go): NumToString[int / named int8 with a String method / uint8 / uint64] and N at the same types called directly against the decimal codec model: every int8 / uint8 value and [-130,260] with and without sign and leading zeros, the limits of int64 / uint64 and their neighbours, every power of ten +-1, 59 malformed or out-of-range texts (empty, bare and double signs, underscores, prefixes, exponents, spaces, non-ASCII digits, 2^63, 2^64, 2^128, long zero prefixes) at each type, seeded random values and digit / noise strings up to 23 bytes; Bound.Enclose called directly on [-3,3]^2 x [-4,4], on 8^3 int8 triples at and around the limits (Abs(-128) = -128) and on 7^3 int64 triples. non-trivial = slice longer than 1 element, or any index/range probe, or a Clamp with lo <= hi; distinct = distinct wire input"})
+		Rule: "exhaustive: every slice of length <= 5 (thorough 6) over {-1,0,1,2} x every probe in [-2,3] / predicate family / key family / index in [-len-2,len+2] (incl. Sum[int8], Mean[int8]); Clamp[int8] and InRange[int8] as whole rows: for int8 (lo,hi) - every third value quick, ALL pairs thorough - the results for every int8 n (thorough = every int8 triple), plus an int8 cube at stride 9/4 and every boundary probe n in {lo-1..lo+1,hi-1..hi+1} (stride 5 quick, all thorough) through the int instantiation, and all int8 for Abs / Abs[int8]; (start,step,end) in [-10,10]^3 (thorough [-14,14]^3) and every 1- and 2-argument call in that range, 0 and >3 arguments, for Range; lists of <= 3 (4) maps for ByKey. extreme: indices / probes / bounds / steps / elements in {MaxInt, MaxInt-1, MinInt, MinInt+1, +-2^31, +-2^32, +-2^62, -1, 0, 1} for Nth (and the valid window shifted by +-2^32 and to both ends of int64), Range/RangeRight (every single, pair and triple whose result has <= 5000 terms - the counter may pass the limits of int64: the repaired loops stop there - or that is rejected; progressions ending within 3 of MaxInt / MinInt), Clamp, InRange, Abs, Compare/Less/Equal, and slices of length <= 3 over {MaxInt, MinInt, +-2^62, +-1} for Sum/SumBy/Mean/Min/Max/FindMin/FindMax(+By) and (length <= 2) the searches with extreme probes. large: slices of 100..5000 elements for every slice function, Nth at both ends, ranges of 100..5000 terms (also ending at MaxInt / MinInt), ByKey over 100..500 maps, Sum/Mean[int8] at the lengths where int8(len) wraps. random: seeded slices up to length 24 over [-50,50]. instances: Range/RangeRight[float64] on every (start,step,end) in [-8,8]^3 quarters, Range/RangeRight[uint64] on starts and ends within 5 of 0, 2^63-3, 2^63 and MaxUint64-5 x steps {1, 2, 3, 2^63, MaxUint64} (few terms each; values above MaxInt64), Range/RangeRight[int8] and [uint8] on 19 / 14 start and end values at and around the limits of the type x 18 / 10 steps (incl. -128) and seeded random triples over the whole type, Sum/FindMin/FindMax[float64] on quarters and Min/Max/IndexOf[string] on numerals, seeded random slices up to length 12. float (c13_float.go; results compared bit for bit with the IEEE-754 model, NaN canonicalised): Sum/Mean/Min/Max/FindMin/FindMax[float64] on every slice of length <= 2 over 20 special values {-0, +0, +-1, 0.1, 0.2, 0.3, 0.5, 1.5, +-1e308, +-5e-324, MaxFloat64, 2^-1022, +-Inf, NaN, 2^53, 2^53+2} and of length 3 over the first 13 (thorough: all 20, and length 4 over the first 15), SumBy/FindMinBy/FindMaxBy x 4 key functions (x, -x, 0, |x|) on length <= 2 and length 3 over the first 7 (14), Abs on every value and its negation, Compare/Less/Equal on every pair, Clamp/InRange on every triple of the first 12 (20), ByKey[int,float64] on lists of <= 3 maps with NaN / -0 / +Inf values, Range/RangeRight[float64] on every single and pair over 24 values (incl. NaN, +-Inf, -0.001, 0.005, 2.675, 2^53, 2^53+2) and every triple over the first 14 (24) that is rejected or ends within 100 (3000) iterations, seeded random slices (raw bit patterns / ordinary decimals / mixed; length <= 12 and 100..500) for every function and seeded random decimal ranges. num / num-malformed (c13_num.go): NumToString[int / named int8 with a String method / uint8 / uint64] and N at the same types called directly against the decimal codec model: every int8 / uint8 value and [-130,260] with and without sign and leading zeros, the limits of int64 / uint64 and their neighbours, every power of ten +-1, 59 malformed or out-of-range texts (empty, bare and double signs, underscores, prefixes, exponents, spaces, non-ASCII digits, 2^63, 2^64, 2^128, long zero prefixes) at each type, seeded random values and digit / noise strings up to 23 bytes; Bound.Enclose called directly on [-3,3]^2 x [-4,4], on 8^3 int8 triples at and around the limits (Abs(-128) = -128) and on 7^3 int64 triples. non-trivial = slice longer than 1 element, or any index/range probe, or a Clamp with lo <= hi; distinct = distinct wire input"})
 }
